@@ -6,9 +6,9 @@ cd $WT || exit 2
 {
 echo "== $NAME in $WT"; git diff --stat -- ghedesigner
 echo "-- demo WITH change"; PYTHONPATH=$WT timeout 1800 /venv/bin/python out/demo.py > out/demo_with.txt 2>&1; echo "exit $?"; tail -3 out/demo_with.txt
-git stash -q -- ghedesigner
+git diff -- ghedesigner > out/.confirm.diff; git apply -R out/.confirm.diff
 echo "-- demo WITHOUT change"; PYTHONPATH=$WT timeout 1800 /venv/bin/python out/demo.py > out/demo_without.txt 2>&1; echo "exit $?"; tail -3 out/demo_without.txt
-git stash pop -q
+git apply out/.confirm.diff; rm -f out/.confirm.diff
 echo "-- tests WITH change: $@"
 PYTHONPATH=$WT /venv/bin/python -m pytest -q -p no:cacheprovider -n 4 --timeout=2400 "$@" 2>&1 | tail -4
 } > $LOG 2>&1
